@@ -26,7 +26,7 @@ ERRORS = (ValueError, IndexError, TypeError, KeyError, ZeroDivisionError, Attrib
 RULE = ('random operator expressions (depth <= 4 quick, <= 5 thorough) over SparseLR / Regularizer / Normalizer / '
         'Laplacian / CoNeighbor / Polynome leaves on random rectangular sparse matrices (null rows and columns, '
         'negative and explicit-zero entries, duplicate and unsorted CSR storage), integer entries with a share of '
-        'dyadic and non-dyadic regularisations; every expression is applied to a vector, to a 2-d array, through a '
+        'dyadic, non-dyadic and negative regularisations; every expression is applied to a vector, to a 2-d array, through a '
         'direct 2-d _matvec call, transposed, and summed along both axes when it is a SparseLR; a share of '
         'ill-shaped expressions checks the errors; exhaustive 0/1 matrices of shape <= 2x2 for every leaf class; '
         'utilities on the same matrices, label vectors with negatives and gaps, scores with ties; '
@@ -39,7 +39,6 @@ ASSUMPTIONS = [
     'np.sqrt (Laplacian(normalized_laplacian=True), get_norms(p=2)) and np.log (get_tfidf) are external: their values '
     'enter the model as data, with the contract sqrt(x)^2 = x, log checked against math.log in Python within TOL',
     'np.argsort / np.argpartition return some sorting / partitioning permutation (top_k compared up to ties through TopKSpec)',
-    'regularisation >= 0 for Normalizer and Laplacian (the code tests regularization > 0; a negative value is outside the domain)',
     'dense ndarray adjacency arguments of the operator classes are covered by C01, not here',
 ]
 
